@@ -98,7 +98,7 @@ PropsWalk(b, n) ==
        ELSE IF id \notin SupportedProps THEN PropsWalk(Drop(b, 4 + sz), n - 1)
        ELSE LET val == Drop(b, 4)
                 need == IF id = PropIeco THEN 2 ELSE 1
-            IN IF Len(val) < need THEN <<[id |-> id, val |-> "short"]>>      \* value runs past the end
+            IN IF Len(val) < need THEN <<[id |-> id, val |-> -1]>>           \* value runs past the end (marker -1)
                ELSE (IF PropDecode(id, val) = None THEN <<>> ELSE <<[id |-> id, val |-> PropDecode(id, val)]>>)
                     \o PropsWalk(Drop(b, 4 + sz), n - 1)
 PropsOf(p) == IF Len(p) < 2 THEN <<>> ELSE PropsWalk(Drop(p, 2), p[2])
